@@ -8,7 +8,7 @@ DEFAULT_DEPTH_LIMIT = 10
 
 class Multidecoder:
     def __init__(self, decoders: Registry | None = None) -> None:
-        self.decoders = decoders if decoders else build_registry()
+        self.decoders = decoders if decoders is not None else build_registry()
 
     def scan(self, data: bytes, depth_limit: int = DEFAULT_DEPTH_LIMIT) -> Node:
         """Search data for all possible decodings.
